@@ -7,6 +7,7 @@ import (
 	"fmt"
 	"os"
 
+	"github.com/hashicorp/consul/internal/verifmc/c03"
 	"github.com/hashicorp/consul/internal/verifmc/c08"
 	"github.com/hashicorp/consul/internal/verifmc/c08r"
 	"github.com/hashicorp/consul/internal/verifmc/c09"
@@ -24,6 +25,7 @@ type checkDef struct {
 }
 
 var checks = map[string]checkDef{
+	"C03": {"model_checking", c03.Run},
 	"C08": {"exploration", func(c *ev.Ctx) { c08.Run(c); c08r.Run(c) }},
 	"C09": {"exploration", c09.Run},
 	"C11": {"model_checking", c11.Run},
